@@ -91,6 +91,10 @@ def prep_optgen(ctx, cfg, tier, seed):
             os.makedirs(os.path.join(tmpd, p.lower()))
             with open(os.path.join(tmpd, p.lower(), 'main.go'), 'w') as f:
                 f.write(src)
+        for sub in ('sa', 'sb'):   # static corpus: two packages named x, each with a type Str
+            os.makedirs(os.path.join(tmpd, sub, 'x'))
+            with open(os.path.join(tmpd, sub, 'x', 'x.go'), 'w') as f:
+                f.write('// Package x (%s): same package name and type name as its sibling; the types are distinct.\npackage x\n\ntype Str string\n' % sub)
         mod = open(ctx.modfile).read().replace('module verif/harness', 'module optgen', 1)
         mod = mod.replace('require (', 'require (\n\tverif/harness v0.0.0', 1).replace('replace (', 'replace (\n\tverif/harness => %s/harness' % ROOT, 1)
         # staged copies are per-invocation temp dirs: the generated program does not use them
